@@ -802,7 +802,9 @@ class GuessCombinator(Contract):
 def call_site_obligations():
     """data flow at the call sites of guess_combinator_by_triplet (decided on the ast): the grammar is queried with (cat, left.cat, right.cat), and the
     node is built with Tree.make_binary(cat, left, right, rule.op_string, rule.op_symbol, <head>) where <head> is rule.head_is_left unless the file
-    format carries its own head flag (AUTO)."""
+    format carries its own head flag (AUTO).  Three-valued: `failed` only for a recognised flow that is wrong (label and symbol exchanged, a literal label,
+    a constant or dropped head flag, children exchanged); a shape this reading does not recognise (the call moved into a helper, aliases, several
+    make_binary calls) is `unknown` - undecided, never a violation.  Returns (rel, qual, line, verdict, why)."""
     from vc.sorts import parse_source
     sites = [('depccg/tools/reader.py', '_AutoLineReader.parse_tree', 'file'), ('depccg/tools/reader.py', 'read_xml', 'rule'),
              ('depccg/tools/reader.py', 'read_jigg_xml', 'rule'), ('depccg/tools/reader.py', '_parse_ptb', 'rule'), ('depccg/tree.py', 'Tree.of_nltk_tree', 'rule')]
@@ -812,49 +814,81 @@ def call_site_obligations():
         tree = parse_source(rel)
         fn = _find_def(tree, qual.split('.'))
         if fn is None:
-            out.append((rel, qual, 0, False, 'function not found'))
+            out.append((rel, qual, 0, 'unknown', 'function not found (renamed or moved): not recognised'))
             continue
         found = False
         for scope in [n for n in ast.walk(fn) if isinstance(n, ast.FunctionDef)]:
-            var = None
             for n in ast.walk(scope):
-                if isinstance(n, ast.Assign) and isinstance(n.value, ast.Call) and _callee(n.value) == 'guess_combinator_by_triplet' and isinstance(n.targets[0], ast.Name):
-                    var, call = n.targets[0].id, n.value
-                    found = True
-                    args = call.args
-                    ok_q = (len(args) == 4 and not call.keywords and isinstance(args[1], ast.Name) and
-                            all(isinstance(a, ast.Attribute) and a.attr == 'cat' and isinstance(a.value, ast.Name) for a in args[2:]))
-                    problems = [] if ok_q else ['grammar not queried with (rules, cat, left.cat, right.cat)']
-                    # the make_binary call that uses it
-                    mb = [c for c in ast.walk(scope) if isinstance(c, ast.Call) and _callee(c) == 'make_binary']
-                    if len(mb) != 1:
-                        problems.append(f'{len(mb)} make_binary calls in scope')
-                    else:
-                        c = mb[0]
-                        a = c.args
-                        if c.keywords or not (len(sig['required']) <= len(a) <= len(sig['all'])):
-                            problems.append(f'make_binary called with {len(a)} positional arguments (signature: {sig["all"]})')
+                if not (isinstance(n, ast.Assign) and isinstance(n.value, ast.Call) and _callee(n.value) == 'guess_combinator_by_triplet' and isinstance(n.targets[0], ast.Name)):
+                    continue
+                if any(n in ast.walk(inner) for inner in ast.walk(scope) if isinstance(inner, ast.FunctionDef) and inner is not scope):
+                    continue          # belongs to a nested function: reported there
+                var, call = n.targets[0].id, n.value
+                found = True
+                bad, unk = [], []
+                args = call.args
+                ok_q = (len(args) == 4 and not call.keywords and isinstance(args[1], ast.Name) and
+                        all(isinstance(a, ast.Attribute) and a.attr == 'cat' and isinstance(a.value, ast.Name) for a in args[2:]))
+                if not ok_q:
+                    unk.append('the grammar query is not of the form (rules, cat, left.cat, right.cat)')
+                mb = [c for c in ast.walk(scope) if isinstance(c, ast.Call) and _callee(c) == 'make_binary']
+                if len(mb) != 1:
+                    unk.append(f'{len(mb)} make_binary calls in scope')
+                else:
+                    c = mb[0]
+                    names = dict(zip(sig['all'], c.args))
+                    for kw in c.keywords:
+                        if kw.arg is None or kw.arg in names or kw.arg not in sig['all']:
+                            unk.append('make_binary called with **kwargs / duplicate / unknown keyword')
                         else:
-                            names = dict(zip(sig['all'], a))
-                            def is_attr(e, attr):
-                                return isinstance(e, ast.Attribute) and e.attr == attr and isinstance(e.value, ast.Name) and e.value.id == var
-                            if not (ok_q and isinstance(names.get('cat'), ast.Name) and names['cat'].id == args[1].id):
-                                problems.append('node category is not the queried category')
-                            if ok_q and not (isinstance(names.get('left'), ast.Name) and names['left'].id == args[2].value.id and
-                                             isinstance(names.get('right'), ast.Name) and names['right'].id == args[3].value.id):
-                                problems.append('children are not the queried (left, right)')
-                            if not is_attr(names.get('op_string'), 'op_string'):
-                                problems.append('op_string is not rule.op_string')
-                            if not is_attr(names.get('op_symbol'), 'op_symbol'):
-                                problems.append('op_symbol is not rule.op_symbol')
-                            h = names.get('head_is_left')
-                            if head_src == 'rule' and not is_attr(h, 'head_is_left'):
-                                problems.append('head direction is not rule.head_is_left although the format has no head field')
-                            if head_src == 'file' and not isinstance(h, ast.Name):
-                                problems.append('head direction is not the flag read from the file')
-                    out.append((rel, qual, n.lineno, not problems, '; '.join(problems)))
+                            names[kw.arg] = kw.value
+                    if len(c.args) > len(sig['all']) or any(r not in names for r in sig['required']):
+                        unk.append(f'make_binary call does not fit the signature {sig["all"]}')
+
+                    def of_rule(e):
+                        return e.attr if isinstance(e, ast.Attribute) and isinstance(e.value, ast.Name) and e.value.id == var else None
+
+                    def label(arg, want):
+                        e = names.get(arg)
+                        if e is None:
+                            return
+                        if of_rule(e) == want:
+                            return
+                        if of_rule(e) is not None:
+                            bad.append(f'{arg} is rule.{of_rule(e)}, not rule.{want}')
+                        elif isinstance(e, ast.Constant):
+                            bad.append(f'{arg} is the literal {e.value!r}, not rule.{want}')
+                        else:
+                            unk.append(f'{arg} is `{ast.unparse(e)}`: not recognised as rule.{want}')
+                    label('op_string', 'op_string')
+                    label('op_symbol', 'op_symbol')
+                    if ok_q:
+                        cat, l, r = names.get('cat'), names.get('left'), names.get('right')
+                        if not (isinstance(cat, ast.Name) and cat.id == args[1].id):
+                            unk.append('node category is not (recognisably) the queried category')
+                        ql, qr = args[2].value.id, args[3].value.id
+                        if isinstance(l, ast.Name) and isinstance(r, ast.Name) and (l.id, r.id) == (qr, ql) and ql != qr:
+                            bad.append('children are exchanged with respect to the grammar query')
+                        elif not (isinstance(l, ast.Name) and isinstance(r, ast.Name) and (l.id, r.id) == (ql, qr)):
+                            unk.append('children are not (recognisably) the queried (left, right)')
+                    h = names.get('head_is_left')
+                    if head_src == 'rule':
+                        if h is None:
+                            bad.append('head direction of the rule is dropped (make_binary defaults to head_is_left=True)')
+                        elif of_rule(h) == 'head_is_left':
+                            pass
+                        elif of_rule(h) is not None or isinstance(h, ast.Constant):
+                            bad.append(f'head direction is `{ast.unparse(h)}`, not rule.head_is_left')
+                        else:
+                            unk.append(f'head direction is `{ast.unparse(h)}`: not recognised as rule.head_is_left')
+                    else:
+                        if h is None or isinstance(h, ast.Constant) or of_rule(h) is not None:
+                            bad.append('head direction is not the flag read from the file (the format records its own head)')
+                        elif not isinstance(h, ast.Name):
+                            unk.append(f'head direction is `{ast.unparse(h)}`: not recognised as the flag read from the file')
+                out.append((rel, qual, n.lineno, 'failed' if bad else ('unknown' if unk else 'discharged'), '; '.join(bad + unk)))
         if not found:
-            out.append((rel, qual, 0, False, 'no call of guess_combinator_by_triplet found'))
+            out.append((rel, qual, 0, 'unknown', 'no call of guess_combinator_by_triplet in this function (moved into a helper?): not recognised'))
     return out
 
 
